@@ -160,7 +160,7 @@ def run_shard(shard, ctx):
             ctx.evaluations += 1
             if got != expected:
                 k = next((i for i in range(min(len(got), len(expected))) if got[i] != expected[i]), None) if isinstance(got, list) and got[:1] != ["raises"] else None
-                e1.report(ctx, "note-events-big", text, PROBE_SRC, [["<30000 events as written>"]], got if not isinstance(got, list) or len(got) < 5 else ["...", got[max(0, (k or 0) - 1) : (k or 0) + 2]], "chart of %d characters (padding %d): note events differ from the lines written (first difference at event %r, %d events instead of 30000)" % (len(text), pad, k, len(got) if isinstance(got, list) else -1))
+                e1.report(ctx, "note-events-big", text, PROBE_SRC, [expected], got if not isinstance(got, list) or len(got) < 5 else ["...", got[max(0, (k or 0) - 1) : (k or 0) + 2]], "chart of %d characters (padding %d): note events differ from the lines written (first difference at event %r, %d events instead of 30000)" % (len(text), pad, k, len(got) if isinstance(got, list) else -1))
         return
     if kind == "headers":
         # the statement is about "an instrument section": every one of the 40 headers, not only [ExpertSingle]
@@ -180,7 +180,10 @@ def run_shard(shard, ctx):
                     ticks = [3 * i for i in range(len(combos))]
                     groups = [note_lines(t, c, f, 0, order) for t, c, f in zip(ticks, combos, flags)]
                     body = render(ticks, groups, inter)
-                    text = mk(tracks={header: body})
+                    # (the section stands between unrecognised sections and another, empty, track: what surrounds an
+                    # instrument section is none of its business)
+                    around = {"none": [(header, body)], "between": [("Foo", ["x"]), (header, body), ("PART VOCALS", [])], "inside": [(header, body), ("Foo", [])], "noise": [("Foo", []), ("Bar", ["0 = N 0 0"]), (header, body)]}[inter]
+                    text = mk(tracks=around)
                     expected = [[ins, dif, [[t, lanes_vector(c)] for t, c in zip(ticks, combos)]]]
                     got = e1.run_probe(hp, text)
                     ctx.case(text, sample=lambda: dict(header=header, ticks=len(ticks)))
